@@ -99,7 +99,9 @@ pub(crate) fn ws_comment_newline(input: &mut Input<'_>) -> ModalResult<()> {
         match next_token {
             Some(b'#') => (
                 comment,
-                newline.context(StrContext::Expected(StrContextValue::Description("newline"))),
+                newline.context(StrContext::Expected(StrContextValue::Description(
+                    "newline",
+                ))),
             )
                 .void()
                 .parse_next(input)?,
